@@ -226,12 +226,12 @@ func timeGrid(r *core.Run) {
 }
 
 func run(r *core.Run) int {
-	r.Rule = "all ordered chains (length 1..4, repetition allowed) x all ordered trust lists (length 0..4) over a pool of look-alike certificates (re-issued with other serial / other validity, same subject other key, same key other subject, root and its cross-signed twin, unrelated); quick: the first 6 pool members, thorough: all 11, trust lists up to 3; " +
+	r.Rule = "all ordered chains (length 1..4, repetition allowed) x all ordered trust lists (length 0..4) over a pool of look-alike certificates (re-issued with other serial / other validity, same subject other key, same key other subject, root and its cross-signed twin, unrelated); quick: the first 6 pool members, thorough: all 11; trust lists up to 4; " +
 		"plus the scheme x time grid for AuthenticSigningTime. non-trivial = chain and trust list share a look-alike pair or an exact match; counted per distinct (chain, trust) pair"
 	r.Assume("pointer identity of the returned certificate is asserted only as membership in the trust list plus DER equality")
 	pl = buildPool()
 	n := r.Pick(6, 11)
-	maxTrust := r.Pick(3, 3)
+	maxTrust := 4
 	chains := tuples(n, 4, false)
 	trusts := tuples(n, maxTrust, true)
 	r.Set("pool", pl.names[:n])
